@@ -51,9 +51,36 @@ def _focus_constraints(M, clause_name):
 
 
 def worker_audit(case, seed):
-    t0 = time.time()
+    """one Model per branch the builder takes on supply values (normally exactly one: the shipped builder has none)"""
     cfg = LM.default_cfg(**{k: v for k, v in case.items() if k != "clauses"})
-    M = LM.build(cfg)
+    total = None
+    try:
+        for M in LM.build_all(cfg):
+            r = _audit_model(case, seed, cfg, M)
+            if r is None:
+                continue          # a branch no supply vector takes
+            if total is None:
+                total = r
+            else:
+                for k in ("queries", "solver_s", "unsat", "sat", "unknown"):
+                    total["stats"][k] += r["stats"][k]
+                total["stats"]["paths"] += 1
+                total["stats"]["completed"] += 1
+                for k, v in r["obligations"].items():
+                    o = total["obligations"].setdefault(k, dict(unsat=0, sat=0, unknown=0))
+                    for kk in o:
+                        o[kk] += v[kk]
+                total["cex"] += [c for c in r["cex"] if sum(1 for x in total["cex"] if x["obligation"] == c["obligation"]) < 2]
+                total["canary_bad"] += r["canary_bad"]
+            if total is not None and total["cex"]:
+                break             # this case already has counterexamples to replay: the remaining branches cannot turn it into a pass
+    except OverflowError as e:
+        return dict(stats=dict(paths=0, completed=0, queries=0, solver_s=0.0, unsat=0, sat=0, unknown=0), obligations={}, cex=[], errors=[str(e)], n_errors=1, canary_bad=0)
+    return total
+
+
+def _audit_model(case, seed, cfg, M):
+    t0 = time.time()
     hyps = list(M.cons.values()) + M.bounds + M.sup
     if SP.degenerate(M):
         # run_scenario never charges feed or biofuel when no human-edible food is modelled
@@ -64,6 +91,8 @@ def worker_audit(case, seed):
     cex = []
     errors = []
     sat0 = ent.satisfiable()
+    if sat0 == "unsat" and M.branch:
+        return None
     canary_bad = 0 if sat0 == "sat" else 1          # the constraint system itself must be satisfiable (vacuity guard)
     clauses = [(n, f) for n, f in SP.audit(M) if not case.get("clauses") or n.startswith(case["clauses"])]
     obligations["every quantity has a lower bound of zero"] = dict(unsat=0, sat=0, unknown=0)
